@@ -114,6 +114,22 @@ def _last_axis_slice(sub: ast.Subscript) -> ast.Slice | None:
     return s if isinstance(s, ast.Slice) else None
 
 
+def _kernel_alternatives(fl, c: ast.Call) -> list[str]:
+    """Dotted names the callee of c can be: the callee itself, or - when it is a local chosen by a conditional
+    expression / if-else (`roll = kernels.a if flag else kernels.b`) - every alternative."""
+    fx = fl.expand(c.func, fl.cfg.node_for(c)) if isinstance(c.func, ast.Name) else c.func
+    out: list[str] = []
+
+    def collect(e):
+        if isinstance(e, ast.IfExp):
+            collect(e.body)
+            collect(e.orelse)
+        else:
+            out.append(dotted(e) or "")
+    collect(fx)
+    return out
+
+
 def _dedisp_block_window(prog: Program, res: Result, rd, fl) -> None:
     """read_dedisp_block: the stream is read one spectrum per iteration from the first to the last sample any channel
     needs, and every spectrum is stored into exactly the channels whose window [min_sample, max_sample) contains it."""
@@ -282,9 +298,10 @@ def run(prog: Program, res: Result, tier: str) -> None:
             continue
         fl = flow_of(f)
         for c in calls_in_body(f.node):
-            d = dotted(c.func) or ""
-            nm = d.split(".")[-1]
-            if nm in delay_params and d.startswith("kernels.") and prog.has_func(KMOD, nm):
+            for d in _kernel_alternatives(fl, c):
+                nm = d.split(".")[-1]
+                if not (nm in delay_params and d.startswith("kernels.") and prog.has_func(KMOD, nm)):
+                    continue
                 k = prog.func(KMOD, nm)
                 arg = prog.bind_args(c, k).get(delay_params[nm])
                 if arg is None:
@@ -342,9 +359,21 @@ def run(prog: Program, res: Result, tier: str) -> None:
     for f in blk.funcs.values():
         fl = flow_of(f)
         for c in calls_in_body(f.node):
-            d = dotted(c.func) or ""
-            nm = d.split(".")[-1]
-            if d.startswith("kernels.") and nm in contracts:
+            # the kernel may be chosen by a conditional expression / if-else before the call: every alternative is a path
+            fx = fl.expand(c.func, fl.cfg.node_for(c)) if isinstance(c.func, ast.Name) else c.func
+            leaves = []
+
+            def _collect(e):
+                if isinstance(e, ast.IfExp):
+                    _collect(e.body)
+                    _collect(e.orelse)
+                else:
+                    leaves.append(dotted(e) or "")
+            _collect(fx)
+            if not (leaves and all(l.startswith("kernels.") and l.split(".")[-1] in contracts for l in leaves)):
+                continue
+            for d in leaves:
+                nm = d.split(".")[-1]
                 npaths += 1
                 key = f"path:{f.qualname}:{nm}"
                 sigma = contracts[nm]
@@ -393,32 +422,51 @@ def run(prog: Program, res: Result, tier: str) -> None:
 
     # ---- R5 reference choice ---------------------------------------------------------------------------------
     hdr = prog.cls(HEADER, "Header")
-    guard = [s for s in body_walk(gd.node) if isinstance(s, ast.If) and isinstance(s.test, ast.Compare) and isinstance(s.test.ops[0], ast.NotIn)
-             and norm(s.test.left) == "ref_freq"]
+    from ..normalform import canon
+    from ..pathcond import path_conditions, rejection
     key = "ref-names"
-    if len(guard) == 1:
-        try:
-            names = ast.literal_eval(guard[0].test.comparators[0])
-        except (ValueError, SyntaxError):
-            names = []
-        ga = [c for c in calls_in_body(gd.node) if dotted(c.func) == "getattr" and isinstance(c.args[1], ast.JoinedStr)]
-        okt = len(ga) == 1 and norm(ga[0].args[1]) == "f'f{ref_freq}'" and norm(ga[0].args[0]) == "self"
-        missing = [n for n in names if f"f{n}" not in hdr.methods and f"f{n}" not in hdr.fields]
-        if names and okt and not missing and set(names) == {"max", "min", "center", "ch1"}:
-            res.ok("R5", gd, guard[0], "ref_freq in {max, min, center, ch1} resolves to Header.fmax/fmin/fcenter/fch1", key=key)
-        else:
-            res.bad("R5", gd, guard[0], f"reference-frequency names {sorted(names) or '(not a literal set)'} are not resolved through the Header attributes "
-                    f"f<name> (fmax/fmin/fcenter/fch1, missing {missing}): a separate lookup can disagree with them (e.g. for ascending bands)", key=key)
+    fgd = flow_of(gd)
+    pcg = path_conditions(fgd)
+    ga = [c for c in calls_in_body(gd.node) if dotted(c.func) == "getattr" and len(c.args) >= 2 and isinstance(c.args[1], ast.JoinedStr)]
+    names: list = []
+    okt = False
+    fact = None
+    if len(ga) == 1 and norm(ga[0].args[0]) == "self":
+        js = ga[0].args[1]
+        fields = [v for v in js.values if isinstance(v, ast.FormattedValue)]
+        lits = [v.value for v in js.values if isinstance(v, ast.Constant)]
+        if len(fields) == 1 and lits == ["f"] and isinstance(js.values[0], ast.Constant):
+            okt = True
+            sel = canon(fgd.expand(fields[0].value, fgd.cfg.node_for(ga[0])))
+
+            def allowed(e, pol):
+                if isinstance(e, ast.Compare) and len(e.ops) == 1 and ((isinstance(e.ops[0], ast.In) and pol) or (isinstance(e.ops[0], ast.NotIn) and not pol)):
+                    return True
+                return False
+            for f_ in pcg.facts_at(ga[0]):
+                if allowed(f_.expr, f_.pol) and canon(fgd.expand(f_.expr.left, f_.test_node)) == sel:
+                    try:
+                        names = sorted(ast.literal_eval(f_.expr.comparators[0]))
+                        fact = f_
+                    except (ValueError, SyntaxError):
+                        names = []
+    if fact is None:
+        res.bad("R5", gd, gd.node, "get_dmdelays no longer validates the reference-frequency name before resolving it", construct="ref_freq", key=key)
     else:
-        res.bad("R5", gd, gd.node, "get_dmdelays no longer validates the reference-frequency name", construct="ref_freq", key=key)
+        missing = [n for n in names if f"f{n}" not in hdr.methods and f"f{n}" not in hdr.fields]
+        if okt and not missing and {"max", "min", "center", "ch1"} <= set(names) and "ValueError" in (rejection(pcg, fact) or ()):
+            res.ok("R5", gd, ga[0], f"the reference name is checked against {names} and resolves to the Header attribute f<name>; anything else raises ValueError", key=key)
+        else:
+            res.bad("R5", gd, ga[0], f"reference-frequency names {names or '(not a literal set)'} are not resolved through the Header attributes "
+                    f"f<name> (fmax/fmin/fcenter/fch1, missing {missing}): a separate lookup can disagree with them (e.g. for ascending bands)", key=key)
     res.floor("R1", 12)
     res.floor("R2", 4)
     res.floor("R3", 13)
     res.floor("R4", 2)
     res.floor("R5", 6)
     res.floor("R6", 8)
-    if nsites < 9:
-        raise AnalysisError(f"only {nsites} delay consumer sites found (9 confirmed by hand)")
+    if nsites < 7:
+        raise AnalysisError(f"only {nsites} delay consumer sites found (9 confirmed by hand; two conditional call sites may be written as one)")
 
 
 def _valid_width(prog: Program, res: Result) -> None:
